@@ -12,12 +12,12 @@ __CPROVER_requires(ALLOC_MODEL_BOUND && ARRAY_VALID(item) && ITEM_RW(value) && v
 __CPROVER_requires(index < AR_META(item).end_ptr ==>
                    (ITEM_RW(AR_SLOTS(item)[index]) && AR_SLOTS(item)[index]->refcount >= 1 &&
                     AR_SLOTS(item)[index] != item && HEAP_BLOCK(AR_SLOTS(item)[index]) &&
-                    DATA_FREEABLE(AR_SLOTS(item)[index]) &&
                     (AR_SLOTS(item)[index] != value || value->refcount >= 2)))
 __CPROVER_requires(!g_s.valid || index >= AR_META(item).end_ptr || AR_SLOTS(item)[index] == g_s.item)
 __CPROVER_assigns(ALLOC_GHOSTS, value->refcount)
 __CPROVER_assigns(index < AR_META(item).end_ptr : AR_SLOTS(item)[index], AR_SLOTS(item)[index]->refcount)
-DECREF_FREES_G(index < AR_META(item).end_ptr, AR_SLOTS(item)[index])
+/* the released element's subtree (hereditary, A1) is not part of this node-level frame */
+__CPROVER_frees(index < AR_META(item).end_ptr && AR_SLOTS(item)[index]->refcount == 1 : AR_SLOTS(item)[index])
 __CPROVER_ensures(RET == (index < OLD(AR_META(item).end_ptr)))
 __CPROVER_ensures(RET ==> AR_SLOTS(item)[index] == value)
 __CPROVER_ensures((RET && g_s.valid) ==> value->refcount == OLD(value->refcount) + (g_s.item == value ? 0 : 1))
@@ -32,13 +32,12 @@ __CPROVER_requires((AR_META(item).type == _CBOR_METADATA_INDEFINITE && AR_META(i
 __CPROVER_requires(index < AR_META(item).end_ptr ==>
                    (ITEM_RW(AR_SLOTS(item)[index]) && AR_SLOTS(item)[index]->refcount >= 1 &&
                     AR_SLOTS(item)[index] != item && HEAP_BLOCK(AR_SLOTS(item)[index]) &&
-                    DATA_FREEABLE(AR_SLOTS(item)[index]) &&
                     (AR_SLOTS(item)[index] != value || value->refcount >= 2)))
 __CPROVER_assigns(ALLOC_GHOSTS, value->refcount, item->data, item->metadata)
 __CPROVER_assigns(AR_META(item).allocated > 0 : __CPROVER_object_whole(item->data))
 __CPROVER_assigns(index < AR_META(item).end_ptr : AR_SLOTS(item)[index]->refcount)
 __CPROVER_frees(AR_META(item).type == _CBOR_METADATA_INDEFINITE : item->data)
-DECREF_FREES_G(index < AR_META(item).end_ptr, AR_SLOTS(item)[index])
+__CPROVER_frees(index < AR_META(item).end_ptr && AR_SLOTS(item)[index]->refcount == 1 : AR_SLOTS(item)[index])
 /* above size: refused, the sequence is unchanged */
 __CPROVER_ensures(index > OLD(AR_META(item).end_ptr) ==>
                   (!RET && AR_META(item).end_ptr == OLD(AR_META(item).end_ptr) && value->refcount == OLD(value->refcount) &&
